@@ -19,6 +19,14 @@ def ws_run(r, maxlen=3):
     return ''.join(r.choice(WS_UNITS) for _ in range(r.choice([1, 1, 1, 2, 2, 3][:maxlen * 2])))
 
 
+def ws_run_long(r):
+    """mostly short; one in six is a run of 4-9 units (a bounded quantifier on a \\s+ of a multi-word keyword rule
+    shows only on a long run; the unbounded statement is C11_first_match_run)"""
+    if r.random() < 1 / 6:
+        return ''.join(r.choice(WS_UNITS) for _ in range(r.randint(4, 9)))
+    return ws_run(r)
+
+
 def recase(r, s, mode):
     if mode == 'upper':
         return s.upper() if s.isascii() else s
@@ -140,7 +148,7 @@ def items_of(atoms, r, p_ws0=0.35, case_modes=('same', 'upper', 'lower', 'random
             for i, w in enumerate(words):
                 if i:
                     a = ' ' if r.random() < 0.7 else ws_run(r)
-                    b = ws_run(r) if 'kwws' in what else a
+                    b = ws_run_long(r) if 'kwws' in what else a
                     items.append(('kwws', a, b, aid))
                 if w.startswith("'"):      # the literal inside AT TIME ZONE '...' is part of the token, not re-cased
                     items.append(('fix', w, w, aid))
